@@ -470,12 +470,18 @@ class Gen:
             if k <= 1:
                 return str(r.choice([0, 1, 2, 3, 5, 7, 10, 100, -1, 1 << 40]))
             if k <= 4:
-                return "(%s %s %s)" % (self.expr(env, "int", d + 1), r.choice(["+", "-", "*", "+", "%", "//", "&", "|"]), self.expr(env, "int", d + 1))
+                o = r.choice(["+", "-", "*", "+", "%", "//", "&", "|", "+", "-"])
+                rhs = self.expr(env, "int", d + 1)
+                if o in ("%", "//") and r.random() < 0.9:
+                    rhs = "(%s or 3)" % rhs
+                return "(%s %s %s)" % (self.expr(env, "int", d + 1), o, rhs)
             if k == 5:
                 return "len(%s)" % self.expr(env, r.choice(["list", "str", "dict", "set"]), d + 1)
             if k == 6:
                 return "(%s or 1)" % self.expr(env, "int", d + 1)
             if k == 7:
+                if r.random() < 0.8:
+                    return "(%s + [4])[-(%s %% 2)]" % (self.expr(env, "list", d + 1), self.expr(env, "int", d + 1))
                 return "%s[%s]" % (self.expr(env, "list", d + 1), self.expr(env, "int", d + 1))
             if k == 8:
                 return "%s.get(%s, 0)" % (self.expr(env, "dict", d + 1), self.expr(env, "str", d + 1))
@@ -526,6 +532,8 @@ class Gen:
         if ty == "set":
             k = r.randrange(5 if not deep else 2)
             if k <= 1:
+                if r.random() < 0.85:
+                    return "set([%s])" % ", ".join(q(r.choice(self.longs)) for _ in range(r.randint(0, 5)))
                 return "set([%s])" % ", ".join(r.choice([q(r.choice(self.longs)), self.expr(env, "int", d + 2)]) for _ in range(r.randint(0, 4)))
             if k == 2:
                 return "(%s %s %s)" % (self.expr(env, "set", d + 1), r.choice("|&-^"), self.expr(env, "set", d + 1))
@@ -547,14 +555,15 @@ class Gen:
             return "not %s" % self.expr(env, "int", 1)
         return "%s == %s" % (self.expr(env, "dict", 1), self.expr(env, "dict", 1))
 
-    def block(self, env, ind, depth, infunc, inloop, n):
+    def block(self, env, ind, depth, scope, inloop, n):
         out = []
         env = dict(env)
         for _ in range(n):
-            out += self.stmt(env, ind, depth, infunc, inloop)
+            out += self.stmt(env, ind, depth, scope, inloop)
         return out
 
-    def stmt(self, env, ind, depth, infunc, inloop):
+    def stmt(self, env, ind, depth, scope, inloop):
+        """scope: names assigned in the enclosing function (or module); only those may be re-bound"""
         r = self.rnd
         pad = "    " * ind
         k = r.randrange(20)
@@ -564,12 +573,13 @@ class Gen:
             v = self.fresh(ty)
             line = "%s = %s" % (v, self.expr(env, ty))
             env[v] = ty
+            scope.add(v)
             return [pad + line]
         if k == 4:
             ty = r.choice(["int", "str", "list"])
-            v = self.pick(env, ty)
-            if v and (infunc or ind == 0):
-                return [pad + "%s += %s" % (v, self.expr(env, ty, 1))]
+            c = [v for v, t in env.items() if t == ty and v in scope]
+            if c:
+                return [pad + "%s += %s" % (r.choice(c), self.expr(env, ty, 1))]
             return [pad + "trace(%s)" % self.expr(env, ty)]
         if k == 5:
             v = self.pick(env, "list")
@@ -586,40 +596,41 @@ class Gen:
         if k <= 9:
             return [pad + "%s(%s)" % (r.choice(["trace", "print"]), ", ".join(self.expr(env, r.choice(tys)) for _ in range(r.randint(1, 3))))]
         if k <= 11:
-            out = [pad + "if %s:" % self.cond(env)] + self.block(env, ind + 1, depth + 1, infunc, inloop, r.randint(1, 3))
+            out = [pad + "if %s:" % self.cond(env)] + self.block(env, ind + 1, depth + 1, scope, inloop, r.randint(1, 3))
             if r.random() < 0.5:
-                out += [pad + "else:"] + self.block(env, ind + 1, depth + 1, infunc, inloop, r.randint(1, 2))
+                out += [pad + "else:"] + self.block(env, ind + 1, depth + 1, scope, inloop, r.randint(1, 2))
             return out
         if k <= 14:
             src_ty = r.choice(["list", "dict", "set", "range", "str", "items"])
             e2 = dict(env)
             if src_ty == "range":
-                head, it = "range(%d)" % r.randint(0, 6), ("x%d" % depth, "int")
+                head, it = "range(%d)" % r.randint(0, 6), (self.fresh("x"), "int")
             elif src_ty == "str":
-                head, it = self.expr(env, "str", 1) + ".elems()", ("ch%d" % depth, "str")
+                head, it = self.expr(env, "str", 1) + ".elems()", (self.fresh("ch"), "str")
             elif src_ty == "items":
                 head = self.expr(env, "dict", 1) + ".items()"
-                e2["kk%d" % depth] = "str"
-                e2["vv%d" % depth] = "int"
+                kk, vv = self.fresh("kk"), self.fresh("vv")
+                e2[kk] = "str"
+                e2[vv] = "int"
                 it = None
             else:
                 head = self.expr(env, src_ty, 1)
-                it = ("e%d" % depth, {"list": "int", "dict": "str", "set": "str"}[src_ty])
+                it = (self.fresh("e"), {"list": "int", "dict": "str", "set": "str"}[src_ty])
             if it:
                 e2[it[0]] = it[1]
                 out = [pad + "for %s in %s:" % (it[0], head)]
             else:
-                out = [pad + "for kk%d, vv%d in %s:" % (depth, depth, head)]
-            body = self.block(e2, ind + 1, depth + 1, infunc, True, r.randint(1, 3))
+                out = [pad + "for %s, %s in %s:" % (kk, vv, head)]
+            body = self.block(e2, ind + 1, depth + 1, scope, True, r.randint(1, 3))
             if r.random() < 0.25:
                 body.append("    " * (ind + 1) + "if %s: %s" % (self.cond(e2), r.choice(["break", "continue"])))
             return out + body
         if k == 15:
-            c = "w%d" % depth
+            c = self.fresh("w")
             e2 = dict(env)
             e2[c] = "int"
             return [pad + "%s = 0" % c, pad + "while %s < %d:" % (c, r.randint(0, 5))] + \
-                self.block(e2, ind + 1, depth + 1, infunc, True, r.randint(1, 2)) + ["    " * (ind + 1) + "%s += 1" % c]
+                self.block(e2, ind + 1, depth + 1, scope, True, r.randint(1, 2)) + ["    " * (ind + 1) + "%s += 1" % c]
         if k <= 17 and depth < 2:
             self.n += 1
             f = "fn%d" % self.n
@@ -636,7 +647,7 @@ class Gen:
             if extra < 0.08 or extra > 0.92:
                 params.append("**kwargs")
             rt = r.choice(tys)
-            body = self.block(e2, ind + 1, depth + 1, True, False, r.randint(1, 4))
+            body = self.block(e2, ind + 1, depth + 1, set(), False, r.randint(1, 4))
             out = [pad + "def %s(%s):" % (f, ", ".join(params))] + body + ["    " * (ind + 1) + "return %s" % self.expr(e2, rt, 1)]
             args = [self.expr(env, t, 1) for t in ptys]
             if ptys and r.random() < 0.3:
@@ -644,13 +655,16 @@ class Gen:
             v = self.fresh(rt)
             out.append(pad + "%s = %s(%s)" % (v, f, ", ".join(args)))
             env[v] = rt
+            scope.add(v)
             if r.random() < 0.3:
                 out.append(pad + "trace([%s(%s) for _ in range(2)], %s)" % (f, ", ".join(args), f))
             return out
         if k == 18:
             v = self.fresh("list")
+            line = "%s = [(lambda y: y + %s)(z) for z in %s]" % (v, self.expr(env, "int", 2), self.expr(env, "list", 1))
             env[v] = "list"
-            return [pad + "%s = [(lambda y: y + %s)(z) for z in %s]" % (v, self.expr(env, "int", 2), self.expr(env, "list", 1))]
+            scope.add(v)
+            return [pad + line]
         return [pad + "trace(%s, sorted(%s), %s)" % (self.expr(env, "dict"), self.expr(env, "set", 1), self.expr(env, "str"))]
 
 
@@ -660,10 +674,10 @@ def gen_general(rnd, pool):
     env = {}
     lines = []
     # top-level statements and a main function sharing the module's globals
-    lines += g.block(env, 0, 0, False, False, 0)
+    top = set()
     for _ in range(rnd.randint(3, 9)):
-        lines += g.stmt(env, 0, 0, False, False)
-    body = g.block(env, 1, 0, True, False, rnd.randint(2, 7))
+        lines += g.stmt(env, 0, 0, top, False)
+    body = g.block(env, 1, 0, set(), False, rnd.randint(2, 7))
     lines += ["def main():"] + body + ["    return %s" % g.expr(env, rnd.choice(["list", "dict", "set"]), 1), "result = main()", "print(result)"]
     opts = dict(ALL_ON)
     if rnd.random() < 0.25:
@@ -808,7 +822,7 @@ def run(ctx):
     pool, header, progs = generate(ctx)
     hdig = hashlib.sha1(json.dumps(header).encode()).hexdigest()
     ctx.log("generated %d programs (%s)" % (len(progs), ", ".join("%s=%d" % (f, sum(1 for p in progs if p["fam"] == f)) for f in ("ord", "feat", "gen"))))
-    chunk = 1 if ctx.quick else 4
+    chunk = 8 if ctx.quick else 25      # programs per child process (process creation is the dominant cost)
     groups = execute(ctx, header, progs, "runs", chunk=chunk)
     if set(groups) != {p["id"] for p in progs}:
         raise vlib.MachineryError("harness returned runs for %d of %d programs" % (len(groups), len(progs)))
